@@ -483,7 +483,8 @@ def write_evidence(ctx, level, coverage, assumptions, violations):
     }
     # runs against another tree (mutants, seeded changes: VERIF_REPO) and replays must not overwrite the evidence
     # of the registered check on /repo
-    sub = "evidence" if REPO == "/repo" and not getattr(ctx, "replaying", False) else os.path.join(".build", "evidence-other")
+    sub = ("evidence" if REPO == "/repo" and not getattr(ctx, "replaying", False) and not os.environ.get("VERIF_EVIDENCE_ASIDE")
+           else os.path.join(".build", "evidence-other"))
     os.makedirs(os.path.join(VERIF, sub), exist_ok=True)
     path = os.path.join(VERIF, sub, ctx.prop + ".json")
     tmp = path + ".tmp"
